@@ -25,6 +25,8 @@ SqOps(i, c) == CASE c = 0 -> << >>
                  [] c = 2 -> << Op("S2gate", <<Q(3, 2), A0>>, <<Sig(i), Idl(i)>>) >>
                  [] c = 3 -> << Op("S2gate", <<Q(4, 3), A0>>, <<Sig(i), Idl(i)>>), Op("S2gate", <<Q(4, 3), A0>>, <<Sig(i), Idl(i)>>) >>
                  [] c = 4 -> << Op("S2gate", <<Q(5, 4), A0>>, <<Sig(i), Idl(i)>>), Op("S2gate", <<Q(6, 5), A0>>, <<Sig(i), Idl(i)>>) >>
+                 \* 5: a squeezer of zero amplitude followed by one with a phase the layout does not offer (nothing to merge it into)
+                 [] c = 5 -> << Op("S2gate", <<One, A0>>, <<Sig(i), Idl(i)>>), Op("S2gate", <<Q(4, 3), APi2>>, <<Sig(i), Idl(i)>>) >>
 RECURSIVE CatSq(_)
 CatSq(i) == IF i > NP THEN << >> ELSE SqOps(i, sq[i]) \o CatSq(i + 1)
 \* interferometer pool on the signal modes (local indices 0 .. NP-1)
@@ -47,14 +49,14 @@ BadOps == CASE bad = "none" -> << >>
             [] bad = "late" -> << >>
 \* "late": a squeezer of the first pair applied after the interferometer
 Source == CatSq(1) \o BadOps \o Interf \o (IF bad = "late" THEN << Op("S2gate", <<Q(4, 3), A0>>, <<Sig(1), Idl(1)>>) >> ELSE << >>)
-Init == /\ sq \in [1 .. NP -> 0 .. 4]
+Init == /\ sq \in [1 .. NP -> 0 .. 5]
         /\ \E n \in 0 .. Len0 : \E f \in [1 .. n -> 1 .. Len(Pool)] : recipe = [j \in 1 .. n |-> Pool[f[j]]]
         /\ dup \in BOOLEAN /\ meas \in {"all", "partial"} /\ bad \in {"none", "wrongpair", "toomuch", "phase", "sandwich_bs", "sandwich_r", "late"}
         /\ (bad # "none") => (dup /\ meas = "all")             \* one defect at a time
         /\ (~dup \/ meas = "partial") => bad = "none"
 Next == UNCHANGED <<sq, recipe, dup, meas, bad, cache>>
 \* the source is inside the device's promise iff: no defect, interferometer duplicated (or empty), all modes measured
-InsidePromise == bad = "none" /\ (dup \/ recipe = << >>) /\ meas = "all"
+InsidePromise == bad = "none" /\ (dup \/ recipe = << >>) /\ meas = "all" /\ \A i \in 1 .. NP : sq[i] # 5
 State == cache
 Init0 == Init /\ cache = ApplySeq(VacuumN(NMod), Source, K)
 StateOK == Symmetric(State) /\ ModeUncertainty(State)
